@@ -261,6 +261,12 @@ def run(prog, rep):
         # the partition contract also holds for the public entry point WrapAlgorithm::wrap, which must hand the
         # selected algorithm's arrangement back unchanged on every path
         lemmas.load_all()
+        stp = lemmas.status(prog, "C04.WRAPPATH")
+        if stp == "ok":
+            rep.ok("C06.R5", "crate", "lemma C04.WRAPPATH holds in this run: the algorithms return for every input", "evaluated: ok", nontrivial=False)
+        else:
+            rep.violation("C06.R5", "crate", "lemma:C04.WRAPPATH", "crate", "lemma C04.WRAPPATH is %s in this run: a line-breaking "
+                          "function can panic or hang, so it returns no partition at all for some input" % stp)
         st = lemmas.status(prog, "DISPATCH")
         if st == "ok":
             rep.ok("C06.R5", "crate", "lemma DISPATCH (C07.R3 / C03.R5) holds in this run", "evaluated: ok", nontrivial=False)
